@@ -319,6 +319,24 @@ func AnnotatedPointerType() {
 	_ = new(AP) // P-ANNOTATED-DEFPTR-NEW
 }
 
+// a defined pointer type to T that carries an annotation of its own: inside ITS constructor an elided literal still builds a T
+// @constructor NewANP
+type ANP *T
+
+func NewANP() ANP {
+	_ = []ANP{{f: 1}} // P-ANP-IN-OWN-CTOR
+	return nil
+}
+
+type PT = *T
+
+// new(*T) allocates a pointer variable, not a T
+func NewOfPointer() {
+	_ = new(*T) // P-NEW-OF-POINTER
+	_ = new(PT) // P-NEW-OF-ALIASPTR
+	_ = new(NP) // P-NEW-OF-DEFPTR
+}
+
 func Parens() {
 	_ = (new)(T) // P-PAREN-NEW
 	_ = ((new))(T) // P-PAREN2-NEW
@@ -346,5 +364,7 @@ func ZZC02Local() {
 		// the defined pointer type AP is annotated itself: its elided literals are literals "of the type"
 		{f, nd.LineOf(c02SrcLocal, "P-ANNOTATED-DEFPTR-ELIDED"), "CTOR01", true},
 		{f, nd.LineOf(c02SrcLocal, "P-ANNOTATED-DEFPTR-NEW"), "CTOR02", true},
+		{f, nd.LineOf(c02SrcLocal, "P-ANP-IN-OWN-CTOR"), "CTOR01", ann},
+		// P-NEW-OF-POINTER, P-NEW-OF-ALIASPTR, P-NEW-OF-DEFPTR: nothing (no T is allocated, *T does not carry the annotation)
 	}, "C02 local type / shadowed new are no instantiations; a same-named method of another type, (new)(T) and elided literals of a named pointer type are")
 }
